@@ -55,6 +55,14 @@ def handle (line : String) : String :=
         out id (model == iops) (b2s specOk) cls "-" model
       | none => bad id "parse-version"
     | _, _ => bad id "parse"
+  | ["refs", id, _ver, order] =>
+    -- reference closure: a contract of schemars' generator + dropshot's bookkeeping, no model;
+    -- the specification is simply "nothing dangles"
+    match impl with
+    | [nops, nrefs, nunres, _nschemas, _names] =>
+      let cls := s!"refs-ops{if nops == "0" then "0" else "n"}-refs{if nrefs == "0" then "0" else "n"}-{if order.splitOn "," |>.length |> (· ≥ 11) then "full" else "subset"}"
+      out id true (b2s (nunres == "0")) cls "-" "-"
+    | _ => bad id "parse-refs"
   | _ => bad "?" "unknown-stream"
 
 end Dropshot.DriverC06
